@@ -55,6 +55,32 @@ func runC12(c *mon.Ctx) {
 		}
 		desc := fmt.Sprintf("kind=%s glyphs=%d cmap=%s", info.Kind, info.NGlyphs, info.CMap)
 		n := f.NumGlyphs()
+		if n > 2 && r.IntN(6) == 0 {
+			// signed extremes: a glyph that lies entirely left of the origin and has
+			// the widest possible advance (advance - xMax does not fit 16 bits),
+			// and one far to the right with a zero advance
+			switch o := f.Outlines.(type) {
+			case *cff.Outlines:
+				g := cff.NewGlyph(o.Glyphs[1].Name, 32767)
+				g.MoveTo(-900, -20)
+				g.LineTo(-150, 300)
+				g.LineTo(-700, 500)
+				o.Glyphs[1] = g
+				g2 := cff.NewGlyph(o.Glyphs[2].Name, 0)
+				g2.MoveTo(20000, 0)
+				g2.LineTo(32000, 100)
+				g2.LineTo(25000, 32000)
+				o.Glyphs[2] = g2
+			case *glyf.Outlines:
+				sg := &glyfref.Simple{Contours: [][]glyfref.Point{{{X: -900, Y: -20, OnCurve: true}, {X: -150, Y: 300, OnCurve: true}, {X: -700, Y: 500, OnCurve: true}}}, Instructions: []byte{}}
+				o.Glyphs[1] = &glyf.Glyph{Rect16: funit.Rect16{LLx: -900, LLy: -20, URx: -150, URy: 500}, Data: glyf.SimpleGlyph{NumContours: 1, Encoded: glyfref.Encode(sg, nil, nil)}}
+				o.Widths[1] = 32767
+				sg2 := &glyfref.Simple{Contours: [][]glyfref.Point{{{X: 20000, Y: 0, OnCurve: true}, {X: 32000, Y: 100, OnCurve: true}, {X: 25000, Y: 32000, OnCurve: true}}}, Instructions: []byte{}}
+				o.Glyphs[2] = &glyf.Glyph{Rect16: funit.Rect16{LLx: 20000, LLy: 0, URx: 32000, URy: 32000}, Data: glyf.SimpleGlyph{NumContours: 1, Encoded: glyfref.Encode(sg2, nil, nil)}}
+				o.Widths[2] = 0
+			}
+			k.Class("extreme-side-bearings")
+		}
 
 		// ---- queries against outlines and each other ----
 		var boxes []funit.Rect16
@@ -253,6 +279,7 @@ func runC12(c *mon.Ctx) {
 				continue
 			}
 			l, rr, e := int(boxes[i].LLx), iw[i]-int(boxes[i].URx), int(boxes[i].URx)
+			rr = max(-32768, min(32767, rr)) // the field is 16 bits wide
 			if first {
 				minLsb, minRsb, maxExt, first = l, rr, e, false
 			} else {
@@ -308,5 +335,5 @@ func runC12(c *mon.Ctx) {
 			k.Sample(desc + fmt.Sprintf(" advanceWidthMax=%d numberOfHMetrics=%d", maxAdv, numH))
 		}
 	})
-	c.Require("derived-fields:glyf", "derived-fields:cff", "derived-fields:cid", "fixed-pitch=true", "fixed-pitch=false", "first-last-char-checked", "bbox-vs-points:cff", "bbox-vs-points:glyf", "hmtx-tail=0", "hmtx-tail=3")
+	c.Require("derived-fields:glyf", "derived-fields:cff", "derived-fields:cid", "fixed-pitch=true", "fixed-pitch=false", "first-last-char-checked", "bbox-vs-points:cff", "bbox-vs-points:glyf", "hmtx-tail=0", "hmtx-tail=3", "extreme-side-bearings")
 }
